@@ -27,6 +27,11 @@ def get_str_query_single(query):
     is '', other strings are canonicalised as a whole query string"""
     if query is None:
         return None
+    if isinstance(query, dict):
+        # a mapping: its items in order; a list / tuple value repeats the key
+        if len(query) == 0:
+            return ""
+        return str_query_from_seq_pairs(list(query.items()))
     if isinstance(query, (list, tuple)):
         # a sequence of (key, value) pairs: serialised in order (single values only)
         if len(query) == 0:
